@@ -18,6 +18,38 @@ RULES = {
 REN = "dns.renderer.Renderer"
 
 
+def check_padded_opt(model, rep, rule):
+    """The OPT that add_opt rebuilds in order to append the padding option keeps everything of the original (flags, payload size,
+    options), and the renderer remembers that it padded whenever the padding branch ran - with zero pad octets too."""
+    ao = model.func(f"{REN}.add_opt")
+    cfg = CFG(ao.node, implicit_exc=False)
+    mk = [(n, c) for (n, c) in calls_with_nodes(cfg) if src(c.func) == "_make_opt"]
+    callee = model.func("dns.renderer._make_opt")
+    params = callee.params()
+    if len(mk) != 1:
+        rep.blind(rule, ao.qualname, where(ao, ao.node), f"{len(mk)} _make_opt calls in add_opt", stmt="padded-opt")
+        return
+    n, c = mk[0]
+    amap = {params[i]: a for i, a in enumerate(c.args) if i < len(params)}
+    amap.update({k.arg: k.value for k in c.keywords})
+    e = pat.Env()
+    okk = set(amap) == set(params) and pat.has(ao.node, "__ttl = opt.ttl", e) and pat.has(ao.node, "__ord = opt[0]", e) and src(amap["flags"]) == e["__ttl"] and src(amap["payload"]) == e["__ord"] + ".rdclass" \
+        and pat.has(ao.node, "__options = list(__ord.options)", e) and src(amap["options"]) == e["__options"]
+    rep.check(okk, rule, ao.qualname, where(ao, c), "the padded OPT is rebuilt from the original's ttl (flags), rdclass (payload size) and options",
+              f"`{src(c)[:70]}` does not pass all of (flags=opt.ttl, payload=<opt rdata>.rdclass, options): what is omitted silently falls back to a default, so a padded message carries different EDNS state "
+              "(e.g. payload 1232) from the message that was rendered", stmt="padded-opt")
+    wp = [m for m in cfg.nodes if isinstance(m.ast, ast.Assign) and src(m.ast) == "self.was_padded = True"]
+    doms = []
+    if len(wp) == 1:
+        for t_ in cfg.nodes:
+            if t_.kind == "test" and isinstance(t_.ast, ast.If):
+                for k in ("t", "f"):
+                    if cfg.edge_dominated(wp[0].id, {(t_.id, k)}):
+                        doms.append((k, src(t_.ast.test)))
+    rep.check(len(wp) == 1 and doms == [("t", "pad")], rule, ao.qualname, where(ao, wp[0].ast if wp else ao.node), "was_padded is recorded whenever the padding branch runs",
+              f"`self.was_padded = True` is conditioned on {doms} instead of just `pad`: with a zero remainder the TSIG key name is compressed after all and the final length is off the block size", stmt="was-padded-cond")
+
+
 def run(model, rep, tier):
     ren = model.cls(REN)
     # ---------------------------------------------------------------- R-08.1
@@ -141,6 +173,7 @@ def run(model, rep, tier):
     rep.check(defs.get("remainder") == ["size_without_padding % pad"], "R-08.4", ao.qualname, where(ao, ao.node), "remainder = size % block", f"remainder = {defs.get('remainder')}", stmt="remainder")
     t = " ".join(src(ao.node).split())
     rep.check("if remainder: pad = b'\\x00' * (pad - remainder) else: pad = b''" in t, "R-08.4", ao.qualname, where(ao, ao.node), "pad = block - remainder octets, none when already aligned", "pad length formula changed", stmt="pad-length")
+    check_padded_opt(model, rep, "R-08.4")
     rep.check("self.was_padded = True" in t and "dns.edns.GenericOption(dns.edns.OptionType.PADDING, pad)" in t, "R-08.4", ao.qualname, where(ao, ao.node), "padding option appended and was_padded recorded",
               "padding option / was_padded flag no longer set", stmt="pad-option")
     co = pat.canon_func(model.func("dns.message.Message._compute_opt_reserve"), ["__size = 11", "__wire = __option.to_wire()"])
@@ -184,6 +217,12 @@ def run(model, rep, tier):
 
 
 WITNESSES = [
+    {"id": "c08-padded-opt-loses-payload", "rule": "R-08.4", "file": "dns/renderer.py", "expect": "fires",
+     "old": "            opt = _make_opt(ttl, opt_rdata.rdclass, options)  # pyright: ignore", "new": "            opt = _make_opt(flags=ttl, options=options)"},
+    {"id": "c08-twin-padded-opt-keywords", "rule": "R-08.4", "file": "dns/renderer.py", "expect": "silent",
+     "old": "            opt = _make_opt(ttl, opt_rdata.rdclass, options)  # pyright: ignore", "new": "            opt = _make_opt(flags=ttl, payload=opt_rdata.rdclass, options=options)"},
+    {"id": "c08-was-padded-only-with-pad-octets", "rule": "R-08.4", "file": "dns/renderer.py", "expect": "fires",
+     "old": "                pad = b\"\\x00\" * (pad - remainder)\n", "new": "                pad = b\"\\x00\" * (pad - remainder)\n                self.was_padded = True\n"},
     {"id": "c08-rollback-keeps-equal", "rule": "R-08.2", "file": "dns/renderer.py", "expect": "fires", "old": "            if v >= where:", "new": "            if v > where:"},
     {"id": "c08-write-outside-track", "rule": "R-08.1", "file": "dns/renderer.py", "expect": "fires",
      "old": "        with self._track_size():\n            qname.to_wire(self.output, self.compress, self.origin)\n            self.output.write(struct.pack(\"!HH\", rdtype, rdclass))",
